@@ -1,6 +1,6 @@
 (** * C11 — all physical implementations of an operator agree.
     Only statements, each closed by [exact], with its assumptions printed. *)
-From RL Require Import Model.Exec Proofs.ExecP Proofs.MergeJoinP Proofs.SortAggP.
+From RL Require Import Model.Exec Proofs.ExecP Proofs.MergeJoinP Proofs.SortAggP Proofs.SimpleAggP.
 From Coq Require Import Permutation.
 Open Scope Z_scope.
 
@@ -47,6 +47,15 @@ Theorem sort_aggregation_eq_hash_aggregation : forall ks aggs c, sorted_on ks (c
   x_sortagg ks aggs c = x_hashagg ks aggs c.
 Proof. exact sortagg_eq_hashagg. Qed.
 
+(** simple (ungrouped) aggregation keeps one state per aggregate and updates it chunk by chunk with
+    array-level functions; for COUNT-star, COUNT and COUNT(DISTINCT) over any values and SUM / MIN / MAX
+    over a column of one integer type (NULLs allowed) it returns what the row-by-row aggregation of
+    the concatenated input returns, for every chunking (incl. empty chunks) *)
+Theorem simple_aggregation_eq_rowwise : forall t aggs c,
+  Forall (fun a => supported t a (concat c)) aggs ->
+  x_simpleagg aggs c = [map (fun a => agg_rows a (concat c)) aggs].
+Proof. exact simpleagg_eq_rowwise. Qed.
+
 (** sort-then-limit = top-N *)
 Theorem topn_eq_sort_then_limit : forall limit offset ks c,
   x_topn limit offset ks c = concat (x_limit limit offset [x_order ks c]).
@@ -76,5 +85,6 @@ Print Assumptions joins_independent_of_chunking.
 Print Assumptions merge_inner_eq_hash.
 Print Assumptions merge_inner_eq_nested_loop.
 Print Assumptions sort_aggregation_eq_hash_aggregation.
+Print Assumptions simple_aggregation_eq_rowwise.
 Print Assumptions topn_eq_sort_then_limit.
 Print Assumptions int_width_keys_disagree.
